@@ -80,6 +80,7 @@ def bv(patterns: List[List[Dict[str, Any]]]) -> Dict[str, Any]:
 
 
 P3 = [mp("A", "1"), mp("A", "2"), mp("B", "1")]
+QUICK_EXTRA_TYPES = ("u8", "u8z", "ascii")
 
 
 class Family:
@@ -142,6 +143,8 @@ def families(quick: bool) -> List[Family]:
     # response layouts x DOP types
     for lay in ref.LAYOUTS:
         for typ in ref.VALUES:
+            if quick and lay in ref.EXTRA_LAYOUTS and typ not in QUICK_EXTRA_TYPES:
+                continue  # quick: the extra field arrangements / nested paths only for three types (thorough: all nine)
             x = f"X_{lay}_{typ}"
             alpha = [mp(x, ref.expected_text(typ, ref.VALUES[typ]["V1"])), mp(x, ref.expected_text(typ, ref.VALUES[typ]["V2"])), mp("A", "1")]
             pool = [ev(s) for s in shapes(alpha, 1, 2)]
